@@ -298,6 +298,7 @@ def unit_route(unit):
                     if bool(di_bit == 1):
                         P(f"route:write:cs{cs}:chip{i}:data-stored", SymBool(z3.Select(chip.vram.arr, T(st["page"]) * 64 + T(st["y"])) == z3.Extract(7, 0, T(val))))
                         P(f"route:write:cs{cs}:chip{i}:column", chip.state.y_address == (st["y"] + 1) % 64)
+                        P(f"route:write:cs{cs}:chip{i}:busy", _beq(chip.state.busy, True), "every write raises the busy flag")
                     else:
                         ins = int(val >> 6)
                         want = dict(on=st["on"], sl=st["start_line"], pg=st["page"], y=st["y"])
@@ -311,6 +312,9 @@ def unit_route(unit):
                             want["y"] = val & 0x3F
                         P(f"route:write:cs{cs}:chip{i}:instruction", core.and_(_beq(chip.state.on, want["on"]), chip.state.start_line == want["sl"],
                                                                             chip.state.page == want["pg"], chip.state.y_address == want["y"]))
+                        P(f"route:write:cs{cs}:chip{i}:busy", _beq(chip.state.busy, True), "every write raises the busy flag (status bit 7 on the next status read)")
+                        k = z3.BitVec("k!cell", W)
+                        P(f"route:write:cs{cs}:chip{i}:vram-unchanged", SymBool(z3.Select(chip.vram.arr, k) == z3.Select(g0[i], k)))
             return f"write cs={cs}"
         else:
             eng.assume(core._b(rw_bit == 1))
@@ -401,7 +405,12 @@ def unit_pixels(unit):
                     vs[(ci, p, c)] = v
                     chip.vram[p][c] = SymInt(z3.ZeroExt(W - 8, v), 0, 255)
         fn = astpass.rebuild(CW.HD61202Controller.get_display_buffer, [astpass.Merge()], extra_globals={"np": _NP})
-        buf = fn(ctl)
+        try:
+            buf = fn(ctl)
+        except core.EngineSignal:
+            raise
+        except Exception as e:  # noqa: BLE001 - the numpy container contract does not cover this implementation
+            raise core.Unsupported(f"get_display_buffer outside the container contract for numpy: {type(e).__name__}: {e}")
         res["buf"], res["vs"] = buf, vs
         return "pixels"
 
@@ -475,3 +484,74 @@ def unit_pixels(unit):
                                    detail=f"{len(seen)} cells driven by VRAM bits, expected {expect_cells}; dark {n_dark}"))
     kinds = {"pixels": len(run.results)}
     return _report(run, unit, t0, status, err, kinds)
+
+
+def unit_pixels_enum(unit):
+    """Bounded stand-in for the pixel map (used for cross-checking and when the symbolic unit is
+    undecided): run the real get_display_buffer natively (real numpy) and flip every single VRAM
+    bit under several backgrounds; each flip must change exactly one cell, always the same one,
+    distinct bits change distinct cells, and one byte feeds one display column."""
+    import random
+    HD, CW, PL = _setup()
+    t0 = time.time()
+    obs = []
+    rng = random.Random(unit.get("seed", 0))
+    on = unit["on"]
+    backgrounds = ["zeros", "ones"] + ["rand%d" % i for i in range(unit.get("random_backgrounds", 1))]
+    cellmap = {}
+    bad = []
+    for bg in backgrounds:
+        ctl = CW.HD61202Controller()
+        for ci, chip in enumerate(ctl.chips):
+            chip.state.on = on[ci]
+            for p in range(8):
+                for c in range(64):
+                    chip.vram[p][c] = 0 if bg == "zeros" else 0xFF if bg == "ones" else rng.randrange(256)
+        base = [[int(x) for x in row] for row in ctl.get_display_buffer()]
+        for ci, chip in enumerate(ctl.chips):
+            for p in range(8):
+                for c in range(64):
+                    old = chip.vram[p][c]
+                    for b in range(8):
+                        chip.vram[p][c] = old ^ (1 << b)
+                        buf = ctl.get_display_buffer()
+                        diff = [(r, col) for r in range(32) for col in range(240) if int(buf[r][col]) != base[r][col]]
+                        key = (ci, p, c, b)
+                        if len(diff) > 1:
+                            bad.append(f"{key} changes {len(diff)} cells")
+                        elif len(diff) == 1:
+                            r, col = diff[0]
+                            want_val = 0 if (old ^ (1 << b)) >> b & 1 else 1
+                            if int(buf[r][col]) != want_val:
+                                bad.append(f"{key} -> cell {diff[0]} not inverted bit")
+                            if cellmap.setdefault(key, diff[0]) != diff[0]:
+                                bad.append(f"{key} drives different cells under different backgrounds")
+                        elif key in cellmap:
+                            bad.append(f"{key} drives {cellmap[key]} only under some backgrounds")
+                    chip.vram[p][c] = old
+    cells = {}
+    for key, cell in cellmap.items():
+        if cell in cells:
+            bad.append(f"cell {cell} driven by {cells[cell]} and {key}")
+        cells[cell] = key
+    bycol = {}
+    for (ci, p, c, b), (r, col) in cellmap.items():
+        bycol.setdefault((ci, p, c), set()).add(col)
+        if b != r % 8 or p % 4 != r // 8:
+            bad.append(f"bit {(ci, p, c, b)} shown at row {r}")
+    if any(len(v) > 1 for v in bycol.values()):
+        bad.append("one VRAM byte feeds more than one display column")
+    expect = 32 * (on[1] * 128 + on[0] * 112)
+    if len(cells) != expect:
+        bad.append(f"{len(cells)} cells driven by VRAM bits, expected {expect}")
+    n = len(cellmap) * len(backgrounds)
+    obs.append(core.Obligation("pixel-map:single-bit-flips", "proved" if not bad else "failed", backend="enumeration", detail="; ".join(bad[:5]) or None))
+    run = core.Run()
+    run.obligations = obs
+    rep = _report(run, unit, t0, "ok", None, {"flips": n})
+    rep["bounded"] = True
+    return rep
+
+
+def unit_any(unit):
+    return globals()[unit["fn"]](unit)
